@@ -12,7 +12,7 @@ LEVEL_NOTE = ("the engine proof assumes DecoderOK of the registry entries; Decod
 DESIGN_REF = "DESIGN.md 5, 6 (C03)"
 from props import decoder_common as DC  # noqa: E402
 
-FUNCTIONS = ENGINE_FUNCS + ["multidecoder.node.shift_nodes", "multidecoder.xor_helper.apply_xor_key", "multidecoder.decoders.shell.find_cmd_strings"] + DC.SIMPLE_DECODERS
+FUNCTIONS = ENGINE_FUNCS + ["multidecoder.node.shift_nodes", "multidecoder.xor_helper.apply_xor_key", "multidecoder.decoders.shell.find_cmd_strings", "multidecoder.decoders.shell.find_powershell_strings"] + DC.SIMPLE_DECODERS
 EXCLUDE_CLAUSES = CORE_ONLY
 # the decoders' value / label clauses belong to C10-C16; C03 takes their span, parent-link, freshness and frame obligations
 SELECT = [r"^(?!.*(value-|/each/type|/each/label|each-type|each-label|post-each/type|post-each/label|cmd-exe|not-past-the-cut|before-the-cut)).*$"]
@@ -27,4 +27,5 @@ def replay(case):
         return engine_rt.replay(case)
     return DC.replay(case)
 
-DEMOTED = {r"find_cmd_strings/safe/IndexError@L\d+:list index": "split[0] needs `the de-escaped match contains a non-blank byte` (a fact about caret_from over L(CMD_RE)) which z3 cannot derive; covered by the run-time stand-in"}
+DEMOTED = {r"find_powershell_strings/safe/IndexError@L\d+:list index": "args[0] needs `the invocation part of a two-word right-split is not blank` through split / join of '/', which the split model does not provide; covered by the run-time stand-in",
+           r"find_cmd_strings/safe/IndexError@L\d+:list index": "split[0] needs `the de-escaped match contains a non-blank byte` (a fact about caret_from over L(CMD_RE)) which z3 cannot derive; covered by the run-time stand-in"}
